@@ -351,14 +351,18 @@ namespace ratio
         else if (const atom_adaptation::var_bounds *va = dynamic_cast<const atom_adaptation::var_bounds *>(&bounds))
         {
             const auto var = static_cast<const ratio::var_item *>(&itm)->ev;
-            const auto val = slv.get_ov_theory().value(var);
-            if (val.size() > 1)
-                record({slv.get_ov_theory().allows(var, va->val), !reason});
-            else if (*val.begin() != &va->val)
-            { // we have a conflict..
-                cnfl.push_back(slv.get_ov_theory().allows(var, va->val));
+            const auto alw = slv.get_ov_theory().allows(var, va->val);
+            switch (slv.get_sat_core().value(alw))
+            {
+            case Undefined: // we propagate the frozen value..
+                record({alw, !reason});
+                break;
+            case False: // we have a conflict..
+                cnfl.push_back(alw);
                 cnfl.push_back(!reason);
                 return false;
+            default: // the frozen value is already the chosen one (the other values might still be undecided)..
+                break;
             }
         }
         return true;
